@@ -184,6 +184,9 @@ func Run(outDir string, seed int64, tier string) error {
 				if eo.Loss.Late {
 					late = "late"
 				}
+				if eo.Loss.AllCopies {
+					late = "late-within-phase"
+				}
 				rep.Count(fmt.Sprintf("run/one-%s-%s/to-rank%d-of-%d/epoch%d", late, eo.Loss.Kind, eo.Loss.ToRank, eo.Expected, eo.Epoch))
 				if eo.Loss.Hits == 0 {
 					rep.Count("run/scripted-fault-not-exercised")
@@ -219,6 +222,11 @@ func Run(outDir string, seed int64, tier string) error {
 		return err
 	}
 	g.add("DEcho "+shape, shapeDescr, "echo-loops", "DEcho "+shape, true)
+	ph, phDescr, err := phaserSource(cli.Repo)
+	if err != nil {
+		return err
+	}
+	g.add("DPhaser "+ph, phDescr, "phaser-source", "DPhaser "+ph, true)
 
 	// ---- report ----
 	seen := map[string]bool{}
@@ -243,7 +251,7 @@ func Run(outDir string, seed int64, tier string) error {
 			}
 		}
 	}
-	rep.Rule = "pure: SortedByPublicKey on byte-string keys (corpus of prefix/high-byte/empty/duplicate keys, small alphabets, real keys), setupDKG and asGroup through the verif hooks on generated DBStates (1..7 participants from seeded key pools of each scheme, random Remaining/Joining split, QUAL subsets ascending or shuffled, stored/empty seed, decoy previous group, malformed stream: garbage/truncated/foreign-group keys, unknown scheme, out-of-range QUAL index, no participants); real: dkg.Process networks (bolt stores, real kyber DKG) over an in-memory bus with random per-message delays, duplicates, one slow node, one crashed node, and exactly one lost direct transmission of a deal/response bundle (or one deal delivered only after the receiver has left the deal phase, gated on bus events, not on time) to each receiver rank in key order (sender chosen by the seed); all real-time constants scaled by a factor calibrated with a plain 3-node DKG at the start; a ceremony that does not complete is retried with longer timeouts and reported only if the same ceremony without the scripted schedule completes (else counted inconclusive), first DKG + one resharing (same/add/remove), one finished-state case per node; distinct = distinct case text; non-trivial = at least two distinct keys / participants / QUAL members (real runs: n >= 2)"
+	rep.Rule = "pure: SortedByPublicKey on byte-string keys (corpus of prefix/high-byte/empty/duplicate keys, small alphabets, real keys), setupDKG and asGroup through the verif hooks on generated DBStates (1..7 participants from seeded key pools of each scheme, random Remaining/Joining split, QUAL subsets ascending or shuffled, stored/empty seed, decoy previous group, malformed stream: garbage/truncated/foreign-group keys, unknown scheme, out-of-range QUAL index, no participants); real: dkg.Process networks (bolt stores, real kyber DKG) over an in-memory bus with random per-message delays, duplicates, one slow node, one crashed node, and exactly one lost direct transmission of a deal/response bundle (or one deal delivered only after the receiver has left the deal phase, gated on bus events, not on time) to each receiver rank in key order (sender chosen by the seed), and one deal/response bundle whose every copy reaches one holder between the configured kick-off grace period and the configured phase duration (grace 1 s, phase 6 s, delay 3 s, scaled); all real-time constants scaled by a factor calibrated with a plain 3-node DKG at the start; a ceremony that does not complete is retried with longer timeouts and reported only if the same ceremony without the scripted schedule completes (else counted inconclusive), first DKG + one resharing (same/add/remove), one finished-state case per node; distinct = distinct case text; non-trivial = at least two distinct keys / participants / QUAL members (real runs: n >= 2)"
 	if err := shard(rep, outDir, "cases_dkgrun", []string{"From DV Require Import Model.DKGExec Corr.DKGExecCorr."}, lines, descr, 60); err != nil {
 		return err
 	}
@@ -303,6 +311,16 @@ func scenarios(rng *rand.Rand, thorough bool) []scenario {
 		}
 		return scenario{Scheme: scheme, N: n, Thr: t, Period: 1000, Phase: 1500 * time.Millisecond, Sched: mk(), Reshare: reshare, Thr2: thr2, Sched2: mk()}
 	}
+	// every copy (direct and echoed) of one node's deal / response bundle reaches one holder late,
+	// but well inside the configured phase: grace period 1 s, phase 6 s, delay 3 s (all scaled).
+	// The holder must wait for it (the phaser runs on the configured phase duration).
+	withinPhase := func(n, t int, scheme, kind string, toRank, fromRank int, reshare string, thr2 int) scenario {
+		mk := func() schedule {
+			return schedule{Name: fmt.Sprintf("%s-late-within-phase-to%d", kind, toRank), SlowNode: -1,
+				Lose: &lostLink{Kind: kind, FromRank: fromRank, ToRank: toRank, AllCopies: true}}
+		}
+		return scenario{Scheme: scheme, N: n, Thr: t, Period: 1000, Grace: time.Second, Phase: 6 * time.Second, Sched: mk(), Reshare: reshare, Thr2: thr2, Sched2: mk()}
+	}
 	var scs []scenario
 	add := func(sc scenario) {
 		sc.BeaconID = []string{"default", "c06-net"}[len(scs)%2]
@@ -347,6 +365,8 @@ func scenarios(rng *rand.Rand, thorough bool) []scenario {
 		add(lossy(4, 3, crypto.DefaultSchemeID, "deal", 3, rng.Intn(4), true, "add", 3))
 		add(lossy(4, 3, crypto.SigsOnG1ID, "deal", 2, rng.Intn(4), false, "same", 3))
 		add(lossy(3, 2, crypto.DefaultSchemeID, "response", 2, rng.Intn(3), false, "same", 2))
+		add(withinPhase(5, 3, crypto.DefaultSchemeID, "deal", rng.Intn(5), rng.Intn(5), "same", 3))
+		add(withinPhase(4, 3, crypto.SigsOnG1ID, "response", rng.Intn(4), rng.Intn(4), "same", 3))
 		return scs
 	}
 	schemes := crypto.ListSchemes()
@@ -397,6 +417,8 @@ func scenarios(rng *rand.Rand, thorough bool) []scenario {
 			add(lossy(n, n/2+1, schemes[(n+to)%len(schemes)], "deal", to, rng.Intn(n), to%2 == 1, []string{"same", "add", "remove"}[(n+to)%3], n/2+1))
 			add(lossy(n, n/2+1, schemes[(n+to+1)%len(schemes)], "response", to, rng.Intn(n), false, "same", n/2+1))
 		}
+		add(withinPhase(n, n/2+1, schemes[n%len(schemes)], "deal", rng.Intn(n), rng.Intn(n), []string{"same", "add"}[n%2], n/2+1))
+		add(withinPhase(n, n/2+1, schemes[(n+1)%len(schemes)], "response", rng.Intn(n), rng.Intn(n), "same", n/2+1))
 	}
 	return scs
 }
